@@ -1,4 +1,5 @@
 import WhVerif.Lemmas.C11
+import WhVerif.Lemmas.C11Geno
 /-!
 # C11 — `whatshap compare` reports the defined error counts, independent of haplotype labelling
 
@@ -134,5 +135,74 @@ theorem F3_witness :
     (agreementFaithful (dipl a) (dipl b)).map zerosOf = some 6 ∧
     (compareBlock false false (dipl a) (dipl b)).map (·.hamming) = some 4 ∧
     (agreementFixed (dipl a) (dipl b)).map zerosOf = some 4 := by decide
+
+/-- the reported number of different genotypes is the number of positions whose allele multisets differ
+(any ploidy; the model compares sorted allele vectors as `Genotype.__eq__` does, the spec counts alleles) -/
+theorem diff_genotypes_eq_definition (fixA fixB : Bool) (ph0 ph1 : List Hap) (e : PhasingErrors)
+    (h : compareBlock fixA fixB ph0 ph1 = some e) :
+    e.diffGenotypes = Spec.diffGenotypes ph0 ph1 (ph0.headD []).length := by
+  unfold compareBlock at h
+  split at h
+  · cases h
+  · simp only at h
+    split at h
+    · injection h with h; subst h
+      exact diffGenotypes_eq_spec _ _ _
+    · split at h
+      · cases h
+      · injection h with h; subst h
+        exact diffGenotypes_eq_spec _ _ _
+
+example : (compareBlock false false [[0,0],[0,1],[1,1]] [[0,0],[0,1],[1,0]]).map (·.diffGenotypes) = some 1 := by decide
+
+/-- switch errors of a diploid block = number of adjacent variant pairs at which the haplotype correspondence
+(identity where the first haplotypes agree, swapped where they differ) changes: the sequence of correspondences
+is forced for heterozygous biallelic variants, so this is the minimum over all flip-free sequences -/
+theorem switch_errors_count_correspondence_changes (fixA fixB : Bool) (a b : Hap) (e : PhasingErrors)
+    (ha : IsBinary a) (hb : IsBinary b) (hl : a.length = b.length)
+    (h : compareBlock fixA fixB (dipl a) (dipl b) = some e) :
+    e.switches = (switchEncoding (agreeNe a b)).sum := by
+  simp only [dipl] at h
+  rw [compareBlock_two] at h
+  split at h
+  · injection h with h; subst h
+    exact switches_orientation a b ha hb hl
+  · cases h
+
+example : (compareBlock false false (dipl [0,1,1,0,1]) (dipl [1,0,0,1,1])).map (·.switches) = some 1 ∧
+    (switchEncoding (agreeNe [0,1,1,0,1] [1,0,0,1,1])).sum = 1 := by decide
+
+/-- the number of marked disagreements does not depend on which haplotype of either phasing is listed first
+(repaired code; the vector itself is inverted at a tie `d = n - d`) -/
+theorem agreement_zeros_swap_invariant (a b : Hap) (v w : List Nat)
+    (ha : IsBinary a) (hb : IsBinary b) (hl : a.length = b.length)
+    (hv : agreementFixed (dipl a) (dipl b) = some v)
+    (hw : agreementFixed [flipBits a, a] [flipBits b, b] = some w) :
+    zerosOf w = zerosOf v := by
+  have ha' := isBinary_flipBits a
+  have hb' := isBinary_flipBits b
+  have e1 : [flipBits a, a] = dipl (flipBits a) := by simp [dipl, flipBits_flipBits ha]
+  have e2 : [flipBits b, b] = dipl (flipBits b) := by simp [dipl, flipBits_flipBits hb]
+  rw [e1, e2, agreementFixed_dipl _ _ hb'] at hw
+  rw [agreementFixed_dipl _ _ hb] at hv
+  injection hv with hv; injection hw with hw
+  subst hv; subst hw
+  have h1 : hamming a (flipBits b) + hamming a b = a.length := hamming_flip_right ha hb hl
+  have h2 : hamming (flipBits a) (flipBits b) = hamming a b := hamming_flip_flip ha hb
+  have h3 : zerosOf (agreeEq a b) = hamming a b := zerosOf_agreeEq a b
+  have h4 : zerosOf (agreeNe a b) + hamming a b = a.length := zerosOf_agreeNe a b hl
+  have h5 : zerosOf (agreeEq (flipBits a) (flipBits b)) = hamming a b := by rw [zerosOf_agreeEq, h2]
+  have h6 : zerosOf (agreeNe (flipBits a) (flipBits b)) + hamming a b = a.length := by
+    have := zerosOf_agreeNe (flipBits a) (flipBits b) (by simpa using hl)
+    rw [h2] at this; simpa using this
+  have h7 : hamming (flipBits a) b + hamming a b = a.length := by
+    have := hamming_flip_right ha' hb' (by simpa using hl)
+    rw [flipBits_flipBits hb, h2] at this; simpa using this
+  rw [flipBits_flipBits hb, h2]
+  by_cases c1 : hamming a b < hamming a (flipBits b) <;> by_cases c2 : hamming a b < hamming (flipBits a) b
+  all_goals simp only [c1, c2, if_true, if_false] <;> omega
+
+example : (agreementFixed (dipl [0,1,1,0,1]) (dipl [0,0,1,1,1])).map zerosOf = some 2 ∧
+    (agreementFixed [flipBits [0,1,1,0,1], [0,1,1,0,1]] [flipBits [0,0,1,1,1], [0,0,1,1,1]]).map zerosOf = some 2 := by decide
 
 end WhVerif.Props.C11
